@@ -151,7 +151,7 @@ Record gi := mkGi { gk : Z; gok : bool; gv : Z }.
 
 Inductive cont :=
 | KCan (g : gi) | KInit (g : gi) | KFailFull (g : gi) | KEvRem (i : nat) (todo : list nat) (cnt : Z)
-| KFinish (r : result).
+| KFinish.                                (* the release that ends clear() *)
 
 Inductive pcT :=
 | PIdle
@@ -221,11 +221,11 @@ Definition pc_of_cont (c : cont) : option pcT :=
   | KInit g => Some (PInit g)
   | KFailFull g => Some (PFailFull g)
   | KEvRem i todo cnt => Some (PEvRem i todo cnt)
-  | KFinish _ => None
+  | KFinish => None
   end.
 Definition resume (th : thread) (c : cont) : thread :=
   match c with
-  | KFinish r => finish th r
+  | KFinish => finish th RCleared
   | KCan g => set_pc th (PCan1 g)
   | KInit g => set_pc th (PInit g)
   | KFailFull g => set_pc th (PFailFull g)
@@ -470,7 +470,7 @@ Definition step (t : nat) (s : st) : option st :=
       | PClSh i acc =>
           if Nat.leb NSH i then
             if acc * PAGE_SIZE =? 0 then Some (upd_th s t (finish th RCleared))
-            else Some (upd_th s t (set_pc th (PRel0 (acc * PAGE_SIZE) (KFinish RCleared))))
+            else Some (upd_th s t (set_pc th (PRel0 (acc * PAGE_SIZE) KFinish)))
           else
             match nth_error (shs s) i with
             | None => None
@@ -586,7 +586,7 @@ Definition pins_ok (s : st) : Prop := forall k, pin_at s k = total_held (thr s) 
 Definition is_clear_pc (p : pcT) : bool :=
   match p with
   | PClLen _ _ | PCl502 _ | PClSh _ _ => true
-  | PRel0 _ (KFinish _) | PRel1 _ _ (KFinish _) => true
+  | PRel0 _ KFinish | PRel1 _ _ KFinish => true
   | _ => false
   end.
 Definition no_clear_prog (p : list op) : Prop := ~ In OClear p.
@@ -599,3 +599,6 @@ Definition contents_ok (s : st) : Prop :=
 
 Definition no_panic_results (s : st) : Prop :=
   forall t th, In (t, th) (thr s) -> ~ In RPanic (res th).
+
+Definition idle_b (s : st) : bool :=
+  forallb (fun p => match pc (snd p) with PIdle => true | _ => false end) (thr s).
